@@ -2,7 +2,14 @@
 //!
 //! case:   c16run <dna|protein> <oops|zoops> <cols> <w> <initial> <inertia> <patience> <rngseed> <maxsteps> <wrap>
 //!                <native|generic|sse2|avx2> <n> { <L> <sym>×L }×n
-//!         (the backend token forces the arm taken by every `Pipeline::dispatch()`: striping and scoring)
+//!         (the backend token forces the arm taken by every `Pipeline::dispatch()`: striping and scoring;
+//!          suffixes: `+pad` = padding cells that are not the wildcard; `+i:<schedule>` = how the SECOND run
+//!          of the case takes its steps, one letter per call, repeated cyclically until <maxsteps> steps are
+//!          consumed:  x = next();  0..4 = nth(k);  a..d = by_ref().skip(1..4).next();
+//!          p q r = by_ref().step_by(2|3|4), two items taken.  The first run always uses next(): it gives
+//!          the choices of every step; the iterations RETURNED by the second run replace those of the first
+//!          in the trace that is compared with the model and judged by the oracle, the skipped ones are
+//!          taken from the first run — on the same data, parameters and seed the two runs must agree.)
 //!                | new-panic
 //!                | ok <start>×n <ns> <seed>×ns <T> { <z> <newstart> <discard> }×T <end|more|panic>
 //!         The part before `|` is the input (data, parameters, rng seed); the part after it is what
@@ -152,13 +159,22 @@ struct Trace {
     init: Option<Snap>,
     steps: Vec<StepRec>,
     end: End,
+    /// scheduled runs only: the iterations actually returned — (number of steps consumed before the
+    /// call, number consumed if the call returns an item, what it returned; `snap` is `None` for an
+    /// item after which the state could not be read because the adaptor still borrowed the sampler)
+    returned: Vec<(usize, usize, Option<(usize, usize, usize, Vec<Vec<u32>>, Option<Snap>)>)>,
+}
+
+/// the schedule of a backend token: `…+i:<letters>`
+fn schedule_of(backend: &str) -> Option<Vec<char>> {
+    backend.split('+').find_map(|f| f.strip_prefix("i:")).map(|s| s.chars().collect())
 }
 
 fn rows_of<A: Alphabet>(m: &lightmotif::dense::DenseMatrix<u32, A::K>) -> Vec<Vec<u32>> {
     (0..m.rows()).map(|i| m[i].to_vec()).collect()
 }
 
-fn run_sampler<A: Alphabet>(spec: &Spec, letters: &[u8]) -> Trace
+fn run_sampler<A: Alphabet>(spec: &Spec, letters: &[u8], scheduled: bool) -> Trace
 where
     Pipeline<A, Dispatch>: Score<f32, A, DefaultColumns> + Stripe<A, DefaultColumns>,
 {
@@ -168,7 +184,7 @@ where
         .map(|q| {
             let text: Vec<u8> = q.iter().map(|&i| letters[i]).collect();
             let mut s: StripedSequence<A, DefaultColumns> = EncodedSequence::<A>::encode(&text).unwrap().to_striped();
-            if spec.backend.ends_with("+pad") {
+            if spec.backend.split('+').any(|f| f == "pad") {
                 // an in-contract striped sequence whose padding cells (positions >= len) are NOT the
                 // wildcard, as `StripedSequence::new` over a user matrix or `StripedSequence::sample`
                 // produce: nothing the sampler reports may depend on them
@@ -202,7 +218,7 @@ where
     let rng = rand::rngs::StdRng::seed_from_u64(spec.rngseed);
     let mut sampler = match guarded(|| builder.sample(rng)) {
         Err(()) => {
-            return Trace { new_panic: true, counts, init: None, steps: vec![], end: End::Panic };
+            return Trace { new_panic: true, counts, init: None, steps: vec![], end: End::Panic, returned: vec![] };
         }
         Ok(s) => s,
     };
@@ -223,6 +239,102 @@ where
     let init = snap!();
     let mut steps = Vec::new();
     let mut end = End::More;
+    if let (true, Some(sched)) = (scheduled, schedule_of(&spec.backend)) {
+        // the steps are taken through nth / skip / step_by: only the returned iterations are seen
+        let mut returned = Vec::new();
+        let mut used = 0usize;
+        let mut call = 0usize;
+        let rec = |it: &lightmotif::sampler::Iteration<A>| (it.z, it.step, it.counts.sequence_count(), rows_of::<A>(it.counts.matrix()));
+        while used < spec.maxsteps && end == End::More {
+            let left = spec.maxsteps - used;
+            let op = sched[call % sched.len()];
+            call += 1;
+            // (steps consumed by the call when every item exists)
+            let (skip, stride) = match op {
+                '0'..='4' => (op as usize - '0' as usize, 0),
+                'a'..='d' => (op as usize - 'a' as usize + 1, 0),
+                'p' | 'q' | 'r' => (0, op as usize - 'p' as usize + 2),
+                _ => (0, 0),
+            };
+            if skip + 1 + stride > left {
+                // does not fit in the step budget: a plain next()
+                match guarded(|| sampler.next()) {
+                    Err(()) => end = End::Panic,
+                    Ok(None) => end = End::End,
+                    Ok(Some(it)) => {
+                        let (z, st, n, c) = rec(&it);
+                        returned.push((used, used + 1, Some((z, st, n, c, Some(snap!())))));
+                    }
+                }
+                if end != End::More {
+                    returned.push((used, used + 1, None));
+                }
+                used += 1;
+                continue;
+            }
+            if stride > 0 {
+                let r = guarded(|| {
+                    let mut sb = sampler.by_ref().step_by(stride);
+                    let first = sb.next();
+                    let second = if first.is_some() { sb.next() } else { None };
+                    (first, second)
+                });
+                match r {
+                    Err(()) => {
+                        end = End::Panic;
+                        returned.push((used, used + 1 + stride, None));
+                    }
+                    Ok((first, second)) => {
+                        match &first {
+                            None => {
+                                end = End::End;
+                                returned.push((used, used + 1, None));
+                            }
+                            Some(it) => {
+                                let (z, st, n, c) = rec(it);
+                                // (the adaptor still borrows the sampler: the state after this item is not read)
+                                let snap = None;
+                                returned.push((used, used + 1, Some((z, st, n, c, snap))));
+                                match &second {
+                                    None => {
+                                        end = End::End;
+                                        returned.push((used + 1, used + 1 + stride, None));
+                                    }
+                                    Some(it2) => {
+                                        let (z, st, n, c) = rec(it2);
+                                        returned.push((used + 1, used + 1 + stride, Some((z, st, n, c, Some(snap!())))));
+                                    }
+                                }
+                            }
+                        }
+                    }
+                }
+                used += 1 + stride;
+                continue;
+            }
+            let r = guarded(|| match op {
+                '0'..='4' => sampler.nth(skip),
+                'a'..='d' => sampler.by_ref().skip(skip).next(),
+                _ => sampler.next(),
+            });
+            match r {
+                Err(()) => {
+                    end = End::Panic;
+                    returned.push((used, used + skip + 1, None));
+                }
+                Ok(None) => {
+                    end = End::End;
+                    returned.push((used, used + skip + 1, None));
+                }
+                Ok(Some(it)) => {
+                    let (z, st, n, c) = rec(&it);
+                    returned.push((used, used + skip + 1, Some((z, st, n, c, Some(snap!())))));
+                }
+            }
+            used += skip + 1;
+        }
+        return Trace { new_panic: false, counts, init: Some(init), steps, end, returned };
+    }
     for _ in 0..spec.maxsteps {
         match guarded(|| sampler.next()) {
             Err(()) => {
@@ -245,21 +357,58 @@ where
             }
         }
     }
-    Trace { new_panic: false, counts, init: Some(init), steps, end }
+    Trace { new_panic: false, counts, init: Some(init), steps, end, returned: vec![] }
 }
 
-fn run_spec(spec: &Spec) -> Trace {
-    let arm = spec.backend.trim_end_matches("+pad");
+fn run_spec(spec: &Spec, scheduled: bool) -> Trace {
+    let arm = spec.backend.split('+').next().unwrap();
     if arm != "native" {
         assert!(verif::force_backend(arm));
     }
     let tr = if spec.alpha == "dna" {
-        run_sampler::<Dna>(spec, DNA)
+        run_sampler::<Dna>(spec, DNA, scheduled)
     } else {
-        run_sampler::<Protein>(spec, PROTEIN)
+        run_sampler::<Protein>(spec, PROTEIN, scheduled)
     };
     verif::clear();
     tr
+}
+
+/// The trace of a scheduled run: the steps of the reference run (taken with `next()`), with every
+/// iteration the scheduled run returned put in the place of the reference's.  `Err` when the two
+/// runs cannot be laid over one another (an item where the reference has none, the end at
+/// another step): then the runs differ, which the property forbids.
+fn overlay(reference: &Trace, sched: &Trace) -> Result<Trace, String> {
+    let mut tr = reference.clone();
+    if sched.new_panic != reference.new_panic || sched.init != reference.init || sched.counts != reference.counts {
+        return Err("the constructor / initial state differ".into());
+    }
+    for (before, after, item) in &sched.returned {
+        match item {
+            Some((z, step, n, counts, snap)) => {
+                let idx = after - 1;
+                let Some(r) = tr.steps.get_mut(idx) else {
+                    return Err(format!("a call returned the iteration of step {} but next() alone stops after {} steps", idx, reference.steps.len()));
+                };
+                *r = StepRec { z: *z, step: *step, itn: *n, itcounts: counts.clone(), snap: snap.clone().unwrap_or_else(|| r.snap.clone()) };
+            }
+            None => {
+                // the call ended (None / panic) somewhere in (before, after]: so must the reference
+                let t = reference.steps.len();
+                if reference.end != sched.end || t < *before || t >= *after {
+                    return Err(format!(
+                        "a call covering steps {}..{} ended with {:?} but next() alone gives {} steps and then {:?}",
+                        before, after, sched.end, t, reference.end
+                    ));
+                }
+            }
+        }
+    }
+    if sched.end == End::More && (reference.end != End::More) {
+        return Err("the step budget was consumed but next() alone ends earlier".into());
+    }
+    tr.end = sched.end;
+    Ok(tr)
 }
 
 fn fmt_mat(m: &[Vec<u32>]) -> String {
@@ -405,7 +554,14 @@ fn in_hypotheses(spec: &Spec) -> bool {
 
 fn oracle(spec: &Spec, tr: &Trace, tr2: &Trace) -> Result<(), String> {
     if tr != tr2 {
-        return Err("two runs with the same data, parameters and seed differ".into());
+        let at = tr.steps.iter().zip(&tr2.steps).position(|(a, b)| a != b);
+        return Err(match at {
+            Some(t) if tr.steps[t].itcounts != tr2.steps[t].itcounts && tr.steps[t].snap == tr2.steps[t].snap => {
+                format!("two runs with the same data, parameters and seed differ: Iteration.counts of step {} (same state after the step)", t)
+            }
+            Some(t) => format!("two runs with the same data, parameters and seed differ at step {}", t),
+            None => "two runs with the same data, parameters and seed differ".into(),
+        });
     }
     if tr.new_panic {
         if in_hypotheses(spec) {
@@ -467,9 +623,22 @@ pub struct Done {
 pub fn exec(line: &str) -> Done {
     let input = line.split('|').next().unwrap().trim();
     let spec = Spec::parse(input);
-    let tr = run_spec(&spec);
-    let tr2 = run_spec(&spec);
-    let o = oracle(&spec, &tr, &tr2);
+    let reference = run_spec(&spec, false);
+    let (tr, o) = if schedule_of(&spec.backend).is_some() {
+        // second run through nth / skip / step_by: its returned iterations, laid over the first run
+        let sched = run_spec(&spec, true);
+        match overlay(&reference, &sched) {
+            Ok(tr) => {
+                let o = oracle(&spec, &tr, &reference);
+                (tr, o)
+            }
+            Err(e) => (reference.clone(), Err(format!("two runs with the same data, parameters and seed differ (next() only / the schedule of the case): {}", e))),
+        }
+    } else {
+        let tr2 = run_spec(&spec, false);
+        let o = oracle(&spec, &reference, &tr2);
+        (reference, o)
+    };
     let mut changed = 0;
     if let Some(init) = &tr.init {
         let mut prev = init;
@@ -519,7 +688,16 @@ fn dataset(rng: &mut Rng, k: usize, n: usize, w: usize, maxextra: usize) -> Vec<
 pub fn generate(cfg: &Cfg) -> Vec<String> {
     let mut rng = Rng::new(cfg.seed ^ 0xC16);
     let mut cases = Vec::new();
-    let mut push = |s: Spec| cases.push(s.input());
+    // half of the cases take the steps of their second run through nth / skip / step_by (own random
+    // state: the data, parameters and seeds of the stream are what they were before)
+    let mut irng = Rng::new(cfg.seed ^ 0xC16_0100);
+    const SCHEDULES: [&str; 10] = ["0", "1", "x2", "a", "q", "0x3bp", "4d", "r1", "x0", "pc2"];
+    let mut push = |mut s: Spec| {
+        if irng.chance(1, 2) {
+            s.backend = format!("{}+i:{}", s.backend, irng.pick(&SCHEDULES));
+        }
+        cases.push(s.input())
+    };
     for alpha in ["dna", "protein"] {
         let k = if alpha == "dna" { 5 } else { 21 };
         // main grid: both modes, every width 1..=20
@@ -665,7 +843,10 @@ pub fn run(cfg: &Cfg) {
         let d = exec(c);
         let t: Vec<&str> = d.line.splitn(6, ' ').collect();
         out.stat(&format!("{}/{}", t[1], t[2]));
-        out.stat(&format!("backend/{}", d.line.split(' ').nth(11).unwrap()));
+        let btok = d.line.split(' ').nth(11).unwrap();
+        let (bk, sched) = btok.split_once("+i:").unwrap_or((btok, ""));
+        out.stat(&format!("backend/{}", bk));
+        out.stat(&format!("second-run/{}", if sched.is_empty() { "next() only".to_string() } else { format!("schedule {}", sched) }));
         out.stat(&format!("width/{:02}", t[4].parse::<usize>().unwrap()));
         out.stat(match (d.new_panic, d.end) {
             (true, _) => "end/new-panic",
